@@ -435,7 +435,7 @@ func init() {
 		Sections: func(tier core.Tier, seed int64) []core.Section {
 			n := 12000
 			if tier == core.Thorough {
-				n = 1000000
+				n = 6000000
 			}
 			return []core.Section{{Name: "generated-values", N: n,
 				Run: func(c *core.Ctx, i int) {
